@@ -113,7 +113,7 @@ def random_cases(rng, n, max_seeds=40, families=None):
             elif fam == "vor-tile":
                 small = voronoi(rng, int(rng.integers(2, 7)))
                 nx, ny = int(rng.integers(1, 4)), int(rng.integers(1, 4))
-                c = eg.tile_unit_cell(small, nx, ny)
+                c = eg.tile_unit_cell(small.vertices.positions, small.edges.indices, small.edges.crossing, [nx, ny])
             elif fam == "dyadic":
                 c = snap_dyadic(l)
             elif fam == "cut-sub":
